@@ -34,6 +34,10 @@ def prop(case, res):
         o2 = core.out(m.validate, v1, **opts)
         if o2 != ('ok', v1):
             kind = 'changed' if o2[0] == 'ok' else 'rejected' if o2[0] == 'verr' else 'crash:%s' % o2[1]
+            ax = ''.join(c for c in x if c.isalnum()).upper()
+            if len(v1) >= 2 and v1[:2].isalpha() and (ax.startswith(v1[:2] * 2) or (v1[2:4] == v1[:2] and ax.startswith(v1[:2] * 3))):
+                # the input carried the country prefix twice (a number whose own first characters equal the prefix)
+                kind += ':doubled-prefix'
             res.violation('%s|not-fixed-point:%s|opts=%s' % (name, kind, ok), 'c02', case,
                           {'first': v1, 'second': [str(t) for t in o2]})
         if res.hist['accepted'] % 29 == 1:
@@ -114,6 +118,10 @@ def shard(a):
             if all(c[0] == 'N' for c in comps) and gs1model.ais()[ai]['type'] in ('str', 'int'):
                 k = sum(c[2] for c in comps)
                 encs += ['0' * (k - 1) + '7', '0' * k]
+            if gs1model.ais()[ai]['type'] == 'decimal':
+                # what Decimal() / int() would take but a digits-only field must not: sign, exponent, underscore, blank
+                e0 = encs[1]
+                encs += [e0[0] + c + e0[2:] for c in '-+ ' if len(e0) > 2] + [e0[:-2] + 'E1', e0[:-2] + '_1']
             for enc in encs:
                 for x in (ai + enc, '(%s)%s' % (ai, enc)):
                     prop({'mod': name, 'x': x, 'opts': {}, 'clock': None}, res)
